@@ -2,7 +2,7 @@
    the NaN-aware translation of each link and the generated statement order of GAM.fit (coq/Gen/FitPrefix.v). *)
 From Coq Require Import Reals Lra List Bool.
 From Coquelicot Require Import Coquelicot.
-From PG Require Import Base.Ops Base.ExtReal Gen.Links Gen.FitPrefix Proofs.C07.
+From PG Require Import Base.Ops Base.ExtReal Gen.Links Gen.FitPrefix Proofs.C07 Proofs.C07Bij.
 Open Scope R_scope.
 
 (* inverse link after link returns the mean, on the open mean domain of each link *)
@@ -50,6 +50,40 @@ Theorem C07_strict_mono :
   (forall L a b, 0 < a -> a < b -> Gen_InvSquaredLink_link L b < Gen_InvSquaredLink_link L a).
 Proof. exact (conj identity_mono (conj log_mono (conj logit_mono (conj inverse_mono_pos (conj inverse_mono_neg invsq_mono))))). Qed.
 Print Assumptions C07_strict_mono.
+
+(* each link is injective on its mean domain: together with C07_inv_left / C07_inv_right, a bijection domain <-> range *)
+Theorem C07_injective :
+  (forall L a b, Gen_IdentityLink_link L a = Gen_IdentityLink_link L b -> a = b) /\
+  (forall L a b, 0 < a -> 0 < b -> Gen_LogLink_link L a = Gen_LogLink_link L b -> a = b) /\
+  (forall L a b, 0 < a < L -> 0 < b < L -> Gen_LogitLink_link L a = Gen_LogitLink_link L b -> a = b) /\
+  (forall L a b, a <> 0 -> b <> 0 -> Gen_InverseLink_link L a = Gen_InverseLink_link L b -> a = b) /\
+  (forall L a b, 0 < a -> 0 < b -> Gen_InvSquaredLink_link L a = Gen_InvSquaredLink_link L b -> a = b).
+Proof. exact (conj identity_inj (conj log_inj (conj logit_inj (conj inverse_inj invsq_inj)))). Qed.
+Print Assumptions C07_injective.
+
+(* the reported gradient never vanishes on the mean domain and its sign is the direction of C07_strict_mono *)
+Theorem C07_gradient_sign :
+  (forall L m, 0 < Gen_IdentityLink_gradient L m) /\
+  (forall L m, 0 < m -> 0 < Gen_LogLink_gradient L m) /\
+  (forall L m, 0 < m < L -> 0 < Gen_LogitLink_gradient L m) /\
+  (forall L m, m <> 0 -> Gen_InverseLink_gradient L m < 0) /\
+  (forall L m, 0 < m -> Gen_InvSquaredLink_gradient L m < 0).
+Proof. exact (conj identity_grad_pos (conj log_grad_pos (conj logit_grad_pos (conj inverse_grad_neg invsq_grad_neg)))). Qed.
+Print Assumptions C07_gradient_sign.
+
+(* inverse function rule: the derivative of the inverse link is the reciprocal of the reported gradient at the mean *)
+Theorem C07_inverse_link_derivative :
+  (forall L e, is_derive (Gen_IdentityLink_mu L) e (/ Gen_IdentityLink_gradient L (Gen_IdentityLink_mu L e))) /\
+  (forall L e, is_derive (Gen_LogLink_mu L) e (/ Gen_LogLink_gradient L (Gen_LogLink_mu L e))) /\
+  (forall L e, 0 < L -> is_derive (Gen_LogitLink_mu L) e (/ Gen_LogitLink_gradient L (Gen_LogitLink_mu L e))) /\
+  (forall L e, e <> 0 -> is_derive (Gen_InverseLink_mu L) e (/ Gen_InverseLink_gradient L (Gen_InverseLink_mu L e))).
+Proof. exact (conj identity_mu_derive (conj log_mu_derive (conj logit_mu_derive inverse_mu_derive))). Qed.
+Print Assumptions C07_inverse_link_derivative.
+
+(* the domain restriction of C07_injective is needed: 1/mu^2 identifies mu and -mu *)
+Theorem C07_invsq_signed_not_injective : forall L, Gen_InvSquaredLink_link L 2 = Gen_InvSquaredLink_link L (-2) /\ 2 <> -2.
+Proof. exact invsq_not_inj_signed. Qed.
+Print Assumptions C07_invsq_signed_not_injective.
 
 (* check_y raises iff np.isnan(link(y)) for some target: for finite targets that is exactly "outside the closed domain" *)
 Theorem C07_domain_nan :
